@@ -15,7 +15,8 @@
 (*    remove entries: flush-before-remove-after-set of the same path, flush  *)
 (*    when the number of field names reaches the max-items parameter;        *)
 (*  - the initial PR_COMMAND_GETDATA-like result of a non-quiet subscribe,   *)
-(*    sent BEFORE the still pending update Message;                          *)
+(*    sent AFTER the updates a filter change of the same Message has queued  *)
+(*    (the repair of F34);                                                   *)
 (*  - session arrival / departure (Cleanup: own subtree removed with         *)
 (*    notifications, deepest nodes first).                                   *)
 (* One command = one action: it folds over its elementary node changes and   *)
@@ -25,17 +26,17 @@
 (* Named deviations of this model from the code: (1) children are visited in *)
 (* a canonical order, the code uses creation order - the batching of updates *)
 (* is therefore compared with the code only through its effect on the        *)
-(* mirrors; (2) results about a session's own nodes (sent when               *)
-(* _indexingPresent) are left out: the client ignores them; (3) host node    *)
+(* mirrors and through the NUMBER of Messages of single-operation commands;  *)
+(* (2) results about a session's own nodes (sent when _indexingPresent) are  *)
+(* left out of the initial result: the client ignores them; (3) host node    *)
 (* and root node are not modelled (all sessions share one host).             *)
 (* Deviations (constant) names defects / wrong variants, modelled as they    *)
 (* are (were): "F27" two spellings of one path allowed at the same time      *)
-(* (known finding), "F34" the order of initial results and pending updates of   *)
-(* a SETPARAMETERS before its repair, "F3" the filter-change code before its *)
-(* repair, "norecurse" a removal that leaves the children behind, "noflush"  *)
-(* the                                                                       *)
-(* flush-before-remove rule dropped, "nofixup" no removal when a payload     *)
-(* change moves a node out of the filters.                                   *)
+(* (open known finding); "F34" the initial result of a SETPARAMETERS leaves  *)
+(* before its pending updates (before the repair); "F3" the filter-change    *)
+(* code before its repair; "norecurse" a removal that leaves the children    *)
+(* behind; "noflush" the flush-before-remove rule dropped; "nofixup" no      *)
+(* removal when a payload change moves a node out of the filters.            *)
 (***************************************************************************)
 EXTENDS TreeAbs, Json
 
